@@ -56,6 +56,7 @@ js::Value to_json(const Plan& p)
     v.set("property", p.property);
     v.set("mode", p.mode);
     if (p.share_streams) v.set("share_streams", true);
+    if (p.share_options) v.set("share_options", true);
     if (p.interleaved_first) v.set("interleaved_first", true);
     js::Value tasks = js::Value::arr();
     for (const PlanTask& t : p.tasks)
@@ -111,6 +112,7 @@ Plan plan_from_json(const js::Value& v)
     p.seed = uint64_t(v.num("seed")); p.index = v.num("index");
     p.property = v.str("property"); p.mode = v.str("mode");
     p.share_streams = v.boolean("share_streams", false);
+    p.share_options = v.boolean("share_options", false);
     p.interleaved_first = v.boolean("interleaved_first", false);
     for (const js::Value& tj : v.at("tasks").a)
     {
